@@ -639,7 +639,7 @@ class StoreCache(CacheMixin):
     def __init__(self, store, path, flat=False):
         self.storage = store
         # entries are filed under the path without a leading slash (see to_path); keys() and clean() have to look there too
-        self.path = path[1:] if isinstance(path, str) and path.startswith("/") else path
+        self.path = path.lstrip("/") if isinstance(path, str) else path
         if not self.storage.is_dir(self.path):
             self.storage.makedir(self.path)
         self.flat = flat
